@@ -147,7 +147,7 @@ func progAnswer(t *transcript, call *bufCall, idx int, key, d []byte, buf *rjson
 	if level >= 4 {
 		return 0, nil
 	}
-	inner := &bufCall{fn: r.Intn(5), prog: hprog{kind: r.Intn(6), k: r.Intn(3), garbage: []int{-1, 1 << 40, len(d) + 1, 1}[r.Intn(4)], mask: r.Uint64(), seed: r.Uint64()}}
+	inner := &bufCall{fn: r.Intn(5), prog: hprog{kind: r.Intn(6), k: r.Intn(3), garbage: []int{-1, off40, len(d) + 1, 1}[r.Intn(4)], mask: r.Uint64(), seed: r.Uint64()}}
 	// make the nested traversal kind match the member when it is a container, usually
 	if len(d) > 0 && r.Intn(4) != 0 {
 		switch d[refmodel.SkipWS(d, 0)%len(d)] {
@@ -234,7 +234,7 @@ func genHistory(seed int64, index uint64, allowHuge bool) []bufCall {
 		if r.Intn(25) == 0 {
 			kind = 6
 		}
-		c.prog = hprog{kind: kind, k: r.Intn(4), garbage: []int{-1, -100, 1 << 40, len(doc) + 1, len(doc) + 7, 1, 2}[r.Intn(7)], mask: r.Uint64(), seed: r.Uint64()}
+		c.prog = hprog{kind: kind, k: r.Intn(4), garbage: []int{-1, -100, off40, len(doc) + 1, len(doc) + 7, 1, 2}[r.Intn(7)], mask: r.Uint64(), seed: r.Uint64()}
 	}
 	if index%40 == 7 {
 		// deep-themed history: the handler traversals (which have no depth limit) first grow the
